@@ -172,6 +172,10 @@ impl C16 {
                     }
                 }
             }
+            // numerals written with more digits than a float or an integer holds
+            for t in ["3.141592653589793238462643", "2.71828182845904523536 * 2.0", "0.1000000000000000055511151231257827 + 0.2", "123456789012345678901234567890.5", "0.000000000000000000000000000001234567890123456789", "18446744073709551616.0", "18446744073709551615.5", "99999999999999999999", "1152921504606846976", "000000000000000000000000000001", "1.50000000000000000000000000000", "0.30000000000000004440892098500626"] {
+                v.push(t.to_string());
+            }
             // formats at the edge of what the placeholder scanner reads
             for t in ["print(\"{\")", "print(\"a {} {\", 1)", "print(\"1234567{\")", "print(\"12345678{\", 2)", "print(\"}\")", "print(\"{}{\", \"{}\")", "print(\"\")", "print(\"é{\")"] {
                 v.push(t.to_string());
